@@ -29,6 +29,14 @@ BATCH_MUT = {"push", "insert", "remove", "swap_remove", "pop", "drain", "clear",
              "sort_unstable", "dedup", "append", "extend", "split_off", "swap", "rotate_left", "rotate_right", "iter_mut", "as_mut_slice"}
 
 
+def is_drain(ctx, n, CB):
+    """`CB.drain(..)` or `mem::take(&mut CB)`: the open batch is moved out (which range / what is done with it is judged on
+    the canonical term of the serialised message)."""
+    if n["k"] == "mcall" and n["name"] == "drain":
+        return ctx.term(n["recv"]) == CB
+    return n["k"] == "call" and n.get("fn") in ("core::mem::take", "std::mem::take") and len(n["args"]) == 1 and ctx.term(n["args"][0]) == CB
+
+
 def rules(P, R, prefix="C11"):
     for cfg, prog in P.items():
         env = Env(prog)
@@ -45,7 +53,7 @@ def rules(P, R, prefix="C11"):
             continue
         CB = "self." + vfields[0]
         run = next((f for f in bfns if any(n["k"] == "select" for n in f.nodes())), None)
-        seal = next((f for f in bfns if any(n["k"] == "mcall" and n["name"] == "drain" and env.ctx(f).term(n["recv"]) == CB for n in f.nodes())), None)
+        seal = next((f for f in bfns if any(is_drain(env.ctx(f), n, CB) for n in f.nodes())), None)
         if not R.judge(run is not None and seal is not None, prefix + ".B1", "anchors run loop / sealing function" + tag, "", "",
                        "anchor-missing: select loop or the function draining %s" % CB, reason="anchor-missing"):
             continue
@@ -71,14 +79,16 @@ def rules(P, R, prefix="C11"):
                     muts.append((f, n))
                 if n["k"] in ("assign",) and c2.term(n["l"]) == CB:
                     muts.append((f, n))
+                if n["k"] == "call" and is_drain(c2, n, CB):
+                    muts.append((f, n))
                 if n["k"] == "ref" and n.get("mut") and c2.term(n["e"]) == CB and not any(a["k"] == "mcall" and a["recv"] is n for a in f.ancestors(n)):
                     par = f.parents().get(id(n))
-                    if not (par is not None and par["k"] == "mcall" and par["recv"] is n):
+                    if not (par is not None and par["k"] == "mcall" and par["recv"] is n) and not (par is not None and par["k"] == "call" and is_drain(c2, par, CB)):
                         muts.append((f, n))
         R.floor(prefix + ".B3", len(muts), 2, "mutations of the open batch" + tag)
         for (f, n), i in ordinal_keys(muts, lambda x: (x[0].path, x[1].get("name", x[1]["k"]))):
             nm = n.get("name", n["k"])
-            ok = (f is run and nm == "push" and any(x is n for x in ir.walk(tx_b["body"]))) or (f is seal and nm == "drain")
+            ok = (f is run and nm == "push" and any(x is n for x in ir.walk(tx_b["body"]))) or (f is seal and is_drain(env.ctx(f), n, CB))
             R.judge(ok, prefix + ".B3", key(f, "open batch only appended (tx arm) and drained (seal): %s%s" % (nm, tag), i), n["sp"], "",
                     "%s.%s in %s: transactions can be reordered, dropped or duplicated outside push/drain(..)" % (CB, nm, f.path))
 
@@ -148,7 +158,7 @@ def rules(P, R, prefix="C11"):
 
         # ---------------- B3 seal drains everything once
         sc = env.ctx(seal)
-        drains = [n for n in seal.nodes() if n["k"] == "mcall" and n["name"] == "drain" and sc.term(n["recv"]) == CB]
+        drains = [n for n in seal.nodes() if is_drain(sc, n, CB)]
         R.judge(len(drains) == 1, prefix + ".B3", key(seal, "single drain of the open batch" + tag), seal.sp, str(len(drains)), "%d drains of the open batch in seal" % len(drains))
         sers = [n for n in seal.nodes() if n["k"] == "call" and n.get("fn", "").startswith("bincode::") and "serialize" in n["fn"]]
         R.floor(prefix + ".B3", len(sers), 1, "serialisation of the sealed batch" + tag)
@@ -196,7 +206,8 @@ def rules(P, R, prefix="C11"):
             if R.judge(wl is not None, prefix + ".B4", key(ps, "receive loop found" + tag), ps.sp, "", "no receive loop in Processor::spawn (undecidable-shape)"):
                 from ..common import inner_cond
                 from ..analysis import T as _T, show as _show
-                exits = [x for x in ir.walk(wl["body"], into_closures=False) if x["k"] in ("break", "ret")]
+                from ..common import exit_on_channel_close
+                exits = [x for x in ir.walk(wl["body"], into_closures=False) if x["k"] in ("break", "ret") and not exit_on_channel_close(env, ps, wl, x)]
                 R.judge(not exits, prefix + ".B4", key(ps, "receive loop has no exit" + tag), wl["sp"], "",
                         "the Processor leaves its loop at %s: later batches are neither stored nor announced" % [x["sp"] for x in exits])
                 # (facts of the form "this unwrap()/expect() did not panic" are not conditions: the panic sites are C15's)
@@ -210,7 +221,8 @@ def rules(P, R, prefix="C11"):
                     for i, n in enumerate(nodes):
                         ic = inner_cond(env.flow(ps), n, wl["body"])
                         cj = ic[1] if ic[0] == "and" else [ic]
-                        ic = _And(*[c for c in cj if not (c[0] == "atom" and c[1] in unwrapped)])
+                        # ("a batch was received" - `some(rx.recv())` of a `loop { match rx.recv() .. }` - is not a condition either)
+                        ic = _And(*[c for c in cj if not (c[0] == "atom" and (c[1] in unwrapped or (c[1].startswith("some(") and c[1].endswith(".recv())"))))])
                         R.judge(ic == _T, prefix + ".B4", key(ps, "every received batch is %s%s" % (what, tag), i), n["sp"], "",
                                 "a batch is %s only under `%s`: some batches (own or received) are dropped by the Processor" % (what, _show(ic)))
         # peer path: received frame forwarded unchanged
